@@ -170,7 +170,11 @@ func (g *G) nameAndMatchers() string {
 			return fmt.Sprintf(`{__name__=~"m.*",%s!="%s"}`, g.oneOf(LabelKeys...), g.oneOf(LabelVals...))
 		}
 	}
-	return g.metric() + g.matchers()
+	m := g.metric()
+	if strings.HasPrefix(m, "{") {
+		return m
+	}
+	return m + g.matchers()
 }
 
 func (g *G) Selector() string { return g.nameAndMatchers() + g.modifiers() }
@@ -372,6 +376,10 @@ func (g *G) Vector(d int) string {
 	case 11:
 		save := g.P.Metrics
 		g.P.Metrics = []string{"h_bucket"}
+		if g.R.Intn(5) == 0 {
+			// two classic histograms that differ in the metric name only
+			g.P.Metrics = []string{`{__name__=~"h.*_bucket"}`}
+		}
 		inner := g.Vector(d - 1)
 		g.P.Metrics = save
 		return fmt.Sprintf("histogram_quantile(%s, %s)", g.qParam(d), inner)
@@ -384,7 +392,7 @@ func (g *G) Vector(d int) string {
 // atomV: a vector expression that binds tighter than unary minus.
 func (g *G) atomV(d int) string {
 	if d <= 0 || g.R.Intn(2) == 0 {
-		return g.metric() + g.matchers()
+		return g.nameAndMatchers()
 	}
 	return "(" + g.Vector(d) + ")"
 }
